@@ -283,10 +283,12 @@ def scan_model(H, around=(), pad=2):
             for x in iv:
                 if type(x) is int:
                     inst.add(x)
-    if inst:
-        probes = list(range(min(inst) - pad, max(inst) + pad + 1))
-    else:
+    if not inst:
         probes = [-1, 0, 1]
+    elif max(inst) - min(inst) <= 400:
+        probes = list(range(min(inst) - pad, max(inst) + pad + 1))
+    else:           # widely spread instants: probe around each of them instead of the whole range
+        probes = sorted({t + k for t in inst for k in range(-pad, pad + 1)})
     for n, a in H.nodes(data=True):
         M.add_node(n, a)
     ns = list(H.nodes())
